@@ -25,6 +25,12 @@ type (
 )
 
 func (ds *dataStore) save(fileName string) (err error) {
+	// Write the snapshot to a temporary file and move it over the previous one
+	// only when it is complete. Writing in place would truncate the previous
+	// snapshot first, and an interruption would leave an empty or partial file.
+	finalName := fileName
+	fileName = finalName + ".tmp"
+
 	// open output file
 	f, err := os.Create(fileName)
 	if err != nil {
@@ -35,6 +41,11 @@ func (ds *dataStore) save(fileName string) (err error) {
 	defer func() {
 		if err := f.Close(); err != nil {
 			panic(err)
+		}
+		if err == nil {
+			err = os.Rename(fileName, finalName)
+		} else {
+			os.Remove(fileName)
 		}
 	}()
 
